@@ -241,7 +241,7 @@ def _sigm_neg(a):
     return S.uf_apply("sigmoid", S.mul(-1, a))
 
 
-@obligation("C15.llr_to_probability", function=FT + ":LLRThresholder.forward", configs=lambda tier: [Cfg("llr_soft", "n3"), Cfg("llr_soft", "2x2")], max_paths=64, timeout_ms=30000, crosscheck=0)
+@obligation("C15.llr_to_probability", function=FT + ":LLRThresholder.forward", configs=lambda tier: [Cfg("llr_soft", "n3"), Cfg("llr_soft", "2x2")], max_paths=64, timeout_ms=30000, crosscheck=2)
 def llr_to_probability(ctx, cfg):
     name, shp = cfg
     shape = (3,) if shp == "n3" else (2, 2)
@@ -262,7 +262,7 @@ def llr_to_probability(ctx, cfg):
     ctx.ensure("p1_above_half_iff_llr_negative", SP.conj(S.land(S.lor(S.le(0, b), S.lt(Fraction(1, 2), a)), S.lor(S.le(b, 0), S.lt(a, Fraction(1, 2)))) for a, b in zip(of, vf) if True) if ctx.mode == "sym" else True)
 
 
-@obligation("C15.consumer_hysteresis", function=FT + ":HysteresisThresholder.forward", configs=lambda tier: [Cfg("hysteresis", "n3"), Cfg("hysteresis", "2x2")], max_paths=512, timeout_ms=30000, crosscheck=0)
+@obligation("C15.consumer_hysteresis", function=FT + ":HysteresisThresholder.forward", configs=lambda tier: [Cfg("hysteresis", "n3"), Cfg("hysteresis", "2x2")], max_paths=512, timeout_ms=30000, crosscheck=2)
 def consumer_hysteresis(ctx, cfg):
     """default thresholds 0.6 / 0.4 on P1 = sigmoid(-llr), fresh object (state None -> zeros)"""
     name, shp = cfg
@@ -287,7 +287,7 @@ def consumer_hysteresis(ctx, cfg):
     ctx.ensure("inside_dead_zone_previous_state", SP.conj(inside), note="interpretation note: inside the dead zone lo <= sigmoid(-llr) <= hi the output is the previous state (zeros for a fresh object), whatever the sign of the LLR")
 
 
-@obligation("C15.consumer_dynamic", function=FT + ":DynamicThresholder.forward", configs=lambda tier: [Cfg("dynamic", "n3"), Cfg("dynamic", "2x2")], max_paths=512, timeout_ms=30000, crosscheck=0)
+@obligation("C15.consumer_dynamic", function=FT + ":DynamicThresholder.forward", configs=lambda tier: [Cfg("dynamic", "n3"), Cfg("dynamic", "2x2")], max_paths=512, timeout_ms=30000, crosscheck=2)
 def consumer_dynamic(ctx, cfg):
     """first call after reset: threshold = clamp(0.9*0.5 + 0.1*mean(P1)) lies in [0.45, 0.55]"""
     name, shp = cfg
@@ -312,7 +312,7 @@ def consumer_dynamic(ctx, cfg):
     ctx.ensure("ones_go_to_the_smaller_llrs", SP.conj(pol))
 
 
-@obligation("C15.consumer_adaptive", function=FT + ":AdaptiveThresholder.forward", configs=lambda tier: [Cfg("adaptive", "n2"), Cfg("adaptive", "n3"), Cfg("adaptive", "2x2")], max_paths=512, timeout_ms=30000, crosscheck=0)
+@obligation("C15.consumer_adaptive", function=FT + ":AdaptiveThresholder.forward", configs=lambda tier: [Cfg("adaptive", "n2"), Cfg("adaptive", "n3"), Cfg("adaptive", "2x2")], max_paths=512, timeout_ms=30000, crosscheck=2)
 def consumer_adaptive(ctx, cfg):
     """method='mean' (default); 'median' (torch.median) and 'otsu' (torch.histc) are outside the symbolic op table"""
     name, shp = cfg
@@ -374,7 +374,7 @@ def _pair_cfgs(tier):
     configs=_pair_cfgs,
     max_paths=5000,
     timeout_ms=30000,
-    crosscheck=0,
+    crosscheck=2,
 )
 def pairing(ctx, vcfg):
     """bits (2 symbols, enumerated path-completely) -> real modulator -> real soft demodulator (sigma^2 = 0.1) -> consumer == bits.
